@@ -1,5 +1,152 @@
-(* C11 — property theorems (placeholder until the model is built). *)
-From WI Require Import Lib.Base Lib.Info Model.PgpEntity Proofs.PgpEntity.
-Theorem C11_placeholder : True.
-Proof. exact I. Qed.
-Print Assumptions C11_placeholder.
+(* C11 — PGP identities and subkeys are listed only when cryptographically bound.
+   Only statements; proofs are in Proofs/PgpEntity.v (and Proofs/PgpKey.v).
+
+   [c] ranges over the code variants (the statements hold for the repaired and the original
+   code), [P] over ALL behaviours of the library calls (hash functions, signature primitives,
+   EC point decoding): nothing is assumed about them except in C11_bitflip_*. *)
+From WI Require Import Lib.Base Lib.Info gen.PgpTables Model.PgpKey Model.PgpEntity Proofs.PgpKey Proofs.PgpEntity.
+Open Scope N_scope.
+
+(* every child of a PGP key description is an identity or a subkey of the entity that
+   ReadEntity returned — nothing else is ever listed *)
+Theorem C11_listed_children : forall c P private stream i,
+  pgp_key c P private stream = Ok i ->
+  exists e, read_entity c P (events_of c P stream) = Ok e /\
+    forall child, In child (i_children i) ->
+      (exists id, In id (e_ids e) /\ child = identity_info c (e_primary e) id) \/
+      (exists sk, In sk (e_subkeys e) /\ child = subkey_info c (p_H P) sk).
+Proof. exact children_are_bound_items. Qed.
+Print Assumptions C11_listed_children.
+
+(* every listed identity: its user-ID packet is followed (only signature packets in between) by a
+   signature packet of certification type whose issuer is the displayed primary key, whose hash
+   prefix equals the first two octets of the digest of EXACTLY key-hash-input || 0xB4 || len || user ID
+   || signature trailer, and which the signature primitive accepted under the primary key *)
+Theorem C11_identity_bound : forall c P evs e, read_entity c P evs = Ok e ->
+  first_key evs = Some (e_primary e) /\ e_ids e <> [] /\
+  forall i, In i (e_ids e) ->
+    exists s, uid_followed_by evs (id_name i) s /\ s_core s = id_self i /\
+      is_cert_type (sc_type (id_self i)) = true /\
+      sc_issuer (id_self i) = Some (key_id (p_H P) (e_primary e)) /\
+      p_avail P (sc_hash (id_self i)) = true /\
+      sig_accepted c P (e_primary e) (uid_hash_input (e_primary e) (id_name i) ++ suffix (id_self i)) (id_self i).
+Proof. exact identity_bound. Qed.
+Print Assumptions C11_identity_bound.
+
+(* every listed subkey: its packet is followed by a binding (or revocation) signature accepted
+   under the primary key over EXACTLY key-hash-input(primary) || key-hash-input(subkey) || trailer,
+   and, when that signature carries the sign flag, by an embedded primary-key-binding signature
+   accepted under the SUBKEY over the same two keys *)
+Theorem C11_subkey_bound : forall c P evs e, read_entity c P evs = Ok e ->
+  forall sk, In sk (e_subkeys e) ->
+    exists s, subkey_followed_by evs (sk_key sk) s /\ s_core s = sk_sig sk /\
+      (sc_type (sk_sig sk) = pgp_sigtype_subkey_binding \/ sc_type (sk_sig sk) = pgp_sigtype_subkey_revocation) /\
+      sig_accepted c P (e_primary e) (binding_hash_input (e_primary e) (sk_key sk) ++ suffix (sk_sig sk)) (sk_sig sk) /\
+      (has_flag (sc_flags (sk_sig sk)) pgp_flag_sign = true ->
+       exists x, s_emb s = Some x /\
+         sig_accepted c P (sk_key sk) (binding_hash_input (e_primary e) (sk_key sk) ++ suffix x) x).
+Proof. exact subkey_bound. Qed.
+Print Assumptions C11_subkey_bound.
+
+(* the key material in those messages is the packet body as it appears in the input *)
+Theorem C11_reserialise_exact : forall ecok body k rest, bytes_ok body = true ->
+  parse_public_key fixed ecok body = Ok (k, rest) -> key_body k ++ rest = body.
+Proof. intros ecok body k rest. apply parse_public_key_exact. reflexivity. Qed.
+Print Assumptions C11_reserialise_exact.
+
+(* unambiguous framing: equal messages mean equal key body, user ID, hashed area and header *)
+Theorem C11_hash_input_injective : forall k u s k' u' s',
+  lenN (key_body k) < 65536 -> lenN (key_body k') < 65536 ->
+  lenN u < 4294967296 -> lenN u' < 4294967296 ->
+  lenN (sc_hashed s) < 65536 -> lenN (sc_hashed s') < 65536 ->
+  uid_hash_input k u ++ suffix s = uid_hash_input k' u' ++ suffix s' ->
+  key_body k = key_body k' /\ u = u' /\ sc_hashed s = sc_hashed s' /\ sig_header s = sig_header s'.
+Proof. exact uid_message_injective. Qed.
+Print Assumptions C11_hash_input_injective.
+
+Theorem C11_binding_input_injective : forall k sk s k' sk' s',
+  lenN (key_body k) < 65536 -> lenN (key_body k') < 65536 ->
+  lenN (key_body sk) < 65536 -> lenN (key_body sk') < 65536 ->
+  lenN (sc_hashed s) < 65536 -> lenN (sc_hashed s') < 65536 ->
+  binding_hash_input k sk ++ suffix s = binding_hash_input k' sk' ++ suffix s' ->
+  key_body k = key_body k' /\ key_body sk = key_body sk' /\ sc_hashed s = sc_hashed s' /\ sig_header s = sig_header s'.
+Proof. exact binding_message_injective. Qed.
+Print Assumptions C11_binding_input_injective.
+
+(* a certification can never be taken for a subkey binding or the other way round *)
+Theorem C11_uid_vs_binding_disjoint : forall k u s k' sk' s',
+  lenN (key_body k) < 65536 -> lenN (key_body k') < 65536 ->
+  uid_hash_input k u ++ suffix s <> binding_hash_input k' sk' ++ suffix s'.
+Proof. exact uid_vs_binding_disjoint. Qed.
+Print Assumptions C11_uid_vs_binding_disjoint.
+
+(* the length bounds hold for everything the parsers return *)
+Theorem C11_parsed_lengths : forall c ecok body k rest fuel l s rest',
+  bytes_ok body = true -> parse_public_key c ecok body = Ok (k, rest) ->
+  bytes_ok l = true -> parse_sig_fuel fuel l = Ok (s, rest') ->
+  lenN (key_body k) < 65536 /\ lenN (sc_hashed (s_core s)) < 65536.
+Proof. exact parsed_lengths. Qed.
+Print Assumptions C11_parsed_lengths.
+
+(* The bit-flip formulation, RELATIVE TO the named cryptographic hypothesis
+     flip_sensitive P k0 genuine := forall c msg s, sig_accepted c P k0 msg s -> genuine (sc_hash s) msg (sig_values s)
+   "whatever the signature check accepts under the honest primary key k0 was signed by its holder",
+   where the holder signed exactly the certifications [uids] and bindings [subs] of the unmodified
+   key (genuine_of).  Then, whatever is done to the packets BEHIND the (unchanged) primary key — any
+   number of changed bits in user IDs, subkeys, signatures, added or removed packets — an identity
+   that is still listed is, in user ID, hashed area and signature header, bit for bit one of the
+   original certified identities; likewise a listed subkey equals an original bound subkey in key
+   body, hashed area and header.  With [strong = true] (the hypothesis then also says that only
+   signature VALUES the holder produced verify: strong unforgeability, true of RSA PKCS#1 v1.5 and
+   Ed25519, not of DSA / ECDSA where (r, -s) verifies too) the integers of the signature value are
+   the original ones as well.  A changed bit in any of those regions of an item therefore makes the
+   item disappear or the key be rejected.  Changes of the primary key itself are outside these two
+   theorems (no standard assumption speaks about verification under a related key); they are
+   covered by the exhaustive single-bit sweep of the check. *)
+Theorem C11_bitflip_identity : forall strong c P k0 uids subs evs e,
+  flip_sensitive P k0 (genuine_of strong k0 uids subs) ->
+  sane_key k0 -> Forall (fun x => lenN (su_uid x) < 4294967296 /\ sane_sig (su_sig x)) uids ->
+  read_entity c P evs = Ok e ->
+  e_primary e = k0 ->
+  forall i, In i (e_ids e) -> lenN (id_name i) < 4294967296 -> sane_sig (id_self i) ->
+  exists x, In x uids /\ id_name i = su_uid x /\
+    sc_hashed (id_self i) = sc_hashed (su_sig x) /\ sig_header (id_self i) = sig_header (su_sig x) /\
+    (strong = true -> sig_values (id_self i) = sig_values (su_sig x)).
+Proof. exact bitflip_identity. Qed.
+Print Assumptions C11_bitflip_identity.
+
+Theorem C11_bitflip_subkey : forall strong c P k0 uids subs evs e,
+  flip_sensitive P k0 (genuine_of strong k0 uids subs) ->
+  sane_key k0 -> Forall (fun x => sane_key (ss_key x) /\ sane_sig (ss_sig x)) subs ->
+  read_entity c P evs = Ok e ->
+  e_primary e = k0 ->
+  forall sk, In sk (e_subkeys e) -> sane_key (sk_key sk) -> sane_sig (sk_sig sk) ->
+  exists x, In x subs /\ key_body (sk_key sk) = key_body (ss_key x) /\
+    sc_hashed (sk_sig sk) = sc_hashed (ss_sig x) /\ sig_header (sk_sig sk) = sig_header (ss_sig x) /\
+    (strong = true -> sig_values (sk_sig sk) = sig_values (ss_sig x)).
+Proof. exact bitflip_subkey. Qed.
+Print Assumptions C11_bitflip_subkey.
+
+(* the hypothesis is satisfiable together with an accepted key *)
+Theorem C11_flip_sensitive_example :
+  flip_sensitive ex_strict ex_key (genuine_of false ex_key [mksu (bs "a") (s_core ex_sig)] []) /\
+  is_ok (read_entity fixed ex_strict ex_evs) = true.
+Proof. exact ex_flip_sensitive. Qed.
+Print Assumptions C11_flip_sensitive_example.
+
+(* the fuel of the packet loop and of the (nested) signature parser is never exhausted: the result
+   does not depend on it beyond the length of the input, and "fuel" is never the reported error *)
+Theorem C11_fuel_sufficient :
+  (forall f1 f2 c P l, (length l < f1)%nat -> (length l < f2)%nat -> events_fuel f1 c P l = events_fuel f2 c P l) /\
+  (forall f1 f2 l, (length l < f1)%nat -> (length l < f2)%nat -> parse_sig_fuel f1 l = parse_sig_fuel f2 l) /\
+  (forall l, parse_sig l <> Err "fuel").
+Proof. exact (conj events_fuel_stable (conj parse_sig_fuel_stable parse_sig_no_fuel_err)). Qed.
+Print Assumptions C11_fuel_sufficient.
+
+(* the hypotheses are met by a concrete key, and the listing really depends on the primitive *)
+Theorem C11_example : 
+  (exists e, read_entity fixed ex_params ex_evs = Ok e /\ map id_name (e_ids e) = [bs "a"]) /\
+  is_ok (read_entity fixed (mkparams (fun _ => repeat 0 20) (fun _ _ => Ok [1; 2; 3]) (fun _ => true)
+                              (fun _ _ _ _ => Ok false) (fun _ _ => Ok true) (fun _ => Ok true)) ex_evs) = false.
+Proof. split; [exact ex_entity_accepted | exact ex_entity_rejected]. Qed.
+Print Assumptions C11_example.
